@@ -20,7 +20,6 @@ RULE = ('family circuits (T1 wave subset, T2 slice, T3 small, T4, T5) x ALL stim
         'state element; plain 0/1 => s[4]==TMAX, s[5]==TMIN and no finite entry in the waveform (every line when memory reuse is off); '
         'distinct_nontrivial = distinct (case, 8-valued output vector) signatures containing at least one R/F/P/N')
 ASSUMPTIONS = ['LogicSim(m=8) is tied to the documented algebra by C02; here the two real implementations are compared with each other',
-               'strip_forks is only exercised on circuits without port forks (bench-style input forks have no driver to strip to)',
                'dyadic times and delays']
 
 
@@ -70,7 +69,6 @@ def check_case(res, case):
     w_reuse, w_strip, l_reuse, l_strip = case['opts']
     b = build(nl, STYLES[case['style']])
     c = b.circuit
-    if W.has_port_forks(c): w_strip = l_strip = False
     key = f'C05/{common.h64(case["nl"]):016x}/s{case["style"]}/{"".join(case["plan"])}/cap{case["caps"]}/{int(w_reuse)}{int(w_strip)}{int(l_reuse)}{int(l_strip)}'
     ipos, opos, spos = b.s_pos()
     nv = nl.n_in + len(nl.states)
